@@ -196,18 +196,30 @@ def property_files(pid: str):
     if only:   # development aid: VERIF_ONLY=tsp,atsp restricts a run to the named units/adapters
         files = [p for p in files if p.stem == pid or p.stem.split("_", 1)[1] in only]
     else:
-        off = disabled_units()
+        off = disabled_units(pid)
         files = [p for p in files if p.stem == pid or p.stem.split("_", 1)[1] not in off]
     return files
 
 
-def disabled_units():
-    """Units/adapters that exist in the tree but are still under construction (vt/units_disabled.txt, one per line):
-    skipped by the registered checks, still runnable with VERIF_ONLY=<unit>."""
+def disabled_units(pid=None):
+    """Units/adapters that exist in the tree but are still under construction (vt/units_disabled.txt, one per line,
+    either `unit` = for every property or `Cxx:unit` = for that property only): skipped by the registered checks,
+    still runnable with VERIF_ONLY=<unit>."""
     p = VERIF / "vt" / "units_disabled.txt"
     if not p.exists():
         return set()
-    return set(x.strip() for x in p.read_text().splitlines() if x.strip() and not x.startswith("#"))
+    out = set()
+    for x in p.read_text().splitlines():
+        x = x.strip()
+        if not x or x.startswith("#"):
+            continue
+        if ":" in x:
+            q, u = x.split(":", 1)
+            if pid is not None and q.strip().upper() == str(pid).upper():
+                out.add(u.strip())
+        else:
+            out.add(x)
+    return out
 
 
 def only_units():
